@@ -112,11 +112,13 @@ def worker(task):
                 V("C13", "serialize-raises-on-valid-value:%s|%s" % (r.get("exc"), cons), dict(case, observed=rustwl._short(r)))
                 continue
             res["nontrivial"].add(common.h(d["name"], tid, want))
+            if len(r["ok"]) == len(want):
+                # C17 judges the implementation's own bytes under both byte orders (see cxxwl)
+                res["c17"].append((tid, json.dumps(v, sort_keys=True), r["ok"], [(s.off, s.len) for s in enc.segs]))
             if r["ok"] != want:
                 off = rustwl._first_diff(bytes.fromhex(r["ok"]), bytes(enc.data))
                 V("C13", "wrong-bytes|%s" % rustwl._locate(m, enc, off), dict(case, observed=r["ok"], first_diff=off))
                 continue
-            res["c17"].append((tid, json.dumps(v, sort_keys=True), r["ok"], [(s.off, s.len) for s in enc.segs]))
             if tid == root and r.get("size") != len(want) // 2:
                 V("C13", "size-property-differs-from-serialized-length|%s" % cons,
                   dict(case, observed={"size": r.get("size"), "len": len(want) // 2, "size_exc": r.get("size_exc")}))
@@ -167,6 +169,13 @@ def worker(task):
                 res["accepted"] += 1
                 if exp[0] == "fault":
                     V("C13", "accepts-invalid:%s|%s" % ("+".join(sorted(set(exp[1]))), where), dict(case, observed=r.get("ok")))
+                elif r.get("class") in m.dm and r.get("class") != tid and isinstance(exp[1], dict) and any(
+                        k in exp[1] and exp[1][k] != m.constraint_int(m.dm[r["class"]], c)
+                        for k, c in m.all_constraints(m.dm[r["class"]]).items()):
+                    # the parser answered with a descendant class one of whose (own or inherited)
+                    # constraints does not hold on these bytes
+                    V("C13", "dispatch-selects-child-whose-constraint-fails|%s" % rustwl.shape_of_tree(m, tid),
+                      dict(case, observed=r.get("ok"), observed_class=r.get("class"), expected=exp[1]))
                 elif not match(r.get("ok"), _cmp_value(m, tid, r.get("class"), exp[1])):
                     V("C13", "wrong-field-values|%s" % rustwl._diff_where(m, tid, r.get("ok") or {}, exp[1]),
                       dict(case, observed=r.get("ok"), expected=exp[1]))
